@@ -252,6 +252,10 @@ class GeneralThermodynamics:
         else:
             raise Exception('Driving force method must be either \'approximate\', \'sampling\', \'tangent\' or \'curvature\'')
 
+        # Composition sets cached by another method have a different layout
+        # (tangent: [precipitate], approximate and curvature: [matrix, precipitate])
+        self._compset_cache_df = {}
+
     def setDFSamplingDensity(self, density):
         '''
         Sets sampling density for sampling method in driving
